@@ -30,9 +30,10 @@ import (
 func init() { register("C02", runC02) }
 
 type c02Case struct {
-	Bytes  string `json:"bytes"` // hex of the input of profile.ParseData
-	Stream string `json:"stream,omitempty"`
-	CLI    bool   `json:"cli,omitempty"` // also run the pprof binary with every report command
+	Bytes  string   `json:"bytes"` // hex of the input of profile.ParseData
+	Stream string   `json:"stream,omitempty"`
+	CLI    bool     `json:"cli,omitempty"`  // also run the pprof binary with every report command
+	Cmds   []string `json:"cmds,omitempty"` // or with exactly these commands (flags separated by \x1f, {file} = the input)
 }
 
 const (
@@ -157,9 +158,12 @@ func c02Contract(p *profile.Profile) string {
 }
 
 // c02Observe runs the real code on b and evaluates the direct oracle.
-func c02Observe(b []byte, reports bool) *c02Outcome { return c02observe(b, reports, 1, false) }
+func c02Observe(b []byte, reports bool) *c02Outcome { return c02observe(b, reports, false, 1, false) }
 
-func c02observe(b []byte, reports bool, mult int, retried bool) *c02Outcome {
+// c02ObserveFull additionally crosses every report kind with every numeric option assignment.
+func c02ObserveFull(b []byte) *c02Outcome { return c02observe(b, true, true, 1, false) }
+
+func c02observe(b []byte, reports, full bool, mult int, retried bool) *c02Outcome {
 	o := &c02Outcome{}
 	var p *profile.Profile
 	var err error
@@ -256,7 +260,7 @@ func c02observe(b []byte, reports bool, mult int, retried bool) *c02Outcome {
 						pn, st = fmt.Sprint(e), string(debug.Stack())
 					}
 				}()
-				if e := c02Report(o.pb, f); e != nil { // an error return is fine, a panic is not
+				if e := c02Report(o.pb, f, c02ROpt{}); e != nil { // an error return is fine, a panic is not
 					o.reports = append(o.reports, f.name+":error")
 				} else {
 					o.reports = append(o.reports, f.name+":ok")
@@ -267,11 +271,31 @@ func c02observe(b []byte, reports bool, mult int, retried bool) *c02Outcome {
 				fail("C02/report/"+f.name+"/panic/"+c02PanicWhere(st), "report "+f.name+" of an accepted profile panics: "+pn)
 			}
 		}
+		// report kinds × numeric options (-mean, -divide_by, -sample_index, -drop_negative, -unit)
+		for _, pk := range c02ReportPicks(o.pb, full) {
+			var st string
+			pn := func() (pn string) {
+				defer func() {
+					if e := recover(); e != nil {
+						pn, st = fmt.Sprint(e), string(debug.Stack())
+					}
+				}()
+				if e := c02Report(o.pb, pk.f, pk.o); e != nil {
+					o.reports = append(o.reports, "opt:"+pk.o.name+":error")
+				} else {
+					o.reports = append(o.reports, "opt:"+pk.o.name+":ok")
+				}
+				return ""
+			}()
+			if pn != "" {
+				fail("C02/report-options/panic/"+c02PanicWhere(st), "report "+pk.f.name+" with numeric options ["+pk.o.name+"] of an accepted profile panics: "+pn)
+			}
+		}
 	})
 	if to && !retried {
 		// rule out a stall of the test machine: the whole observation once more with a larger budget
 		time.Sleep(500 * time.Millisecond)
-		return c02observe(b, reports, 4, true)
+		return c02observe(b, reports, full, 4, true)
 	}
 	switch {
 	case to:
@@ -493,7 +517,13 @@ func c02WriteInflight(c *Ctx, cs c02Case) {
 func c02Check(c *Ctx, raw []byte, stream string, cli bool) *c02Outcome {
 	cs := c02Case{Bytes: hex.EncodeToString(raw), Stream: stream, CLI: cli}
 	c02WriteInflight(c, cs)
-	o := c02Observe(raw, true)
+	observe := func(b []byte) *c02Outcome {
+		if strings.HasPrefix(stream, "v:") { // degenerate-value stream: full report × option cross
+			return c02ObserveFull(b)
+		}
+		return c02Observe(b, true)
+	}
+	o := observe(raw)
 	if o.sig != "" {
 		// shrink the bytes while the same failure (same signature) reproduces
 		maxEvals := 1500
@@ -505,7 +535,7 @@ func c02Check(c *Ctx, raw []byte, stream string, cli bool) *c02Outcome {
 			c.Res.Hit("violation:" + o.sig)
 			return o
 		}
-		small := c02Shrink(raw, maxEvals, func(cand []byte) bool { return c02Observe(cand, true).sig == sig })
+		small := c02Shrink(raw, maxEvals, func(cand []byte) bool { return observe(cand).sig == sig })
 		c.Violation(o.sig, o.what, c02Case{Bytes: hex.EncodeToString(small), Stream: stream, CLI: false})
 		c.Res.Hit("violation:" + o.sig)
 		return o
@@ -547,6 +577,7 @@ func c02Check(c *Ctx, raw []byte, stream string, cli bool) *c02Outcome {
 func c02CLI(c *Ctx, raw []byte, stream string, cmds []string) {
 	for _, r := range c02RunCLI(c, raw, cmds, 20*time.Second) {
 		c.Res.Hit("cli:runs")
+		shown := strings.ReplaceAll(r.cmd, "\x1f", " ")
 		if r.timeout {
 			// rule out a stall of the test machine: once more, alone, with a generous limit
 			c.Res.Hit("cli:timeout-retried")
@@ -557,10 +588,10 @@ func c02CLI(c *Ctx, raw []byte, stream string, cmds []string) {
 		}
 		switch {
 		case r.timeout:
-			c.Violation("C02/cli/timeout/"+r.cmd, "pprof "+r.cmd+" on an accepted profile did not finish within 120s (after a first attempt limited to 20s)", c02Case{Bytes: hex.EncodeToString(raw), Stream: stream, CLI: true})
+			c.Violation("C02/cli/timeout/"+c02FirstWord(shown), "pprof "+shown+" on an accepted profile did not finish within 120s (after a first attempt limited to 20s)", c02Case{Bytes: hex.EncodeToString(raw), Stream: stream, Cmds: []string{r.cmd}})
 		case r.crashed:
 			c.Res.Hit("cli:crash")
-			c.Violation("C02/cli/panic/"+r.where, "pprof "+r.cmd+" crashes on a profile the parser accepts: "+r.stderr, c02Case{Bytes: hex.EncodeToString(raw), Stream: stream, CLI: true})
+			c.Violation("C02/cli/panic/"+r.where, "pprof "+shown+" crashes on a profile the parser accepts: "+r.stderr, c02Case{Bytes: hex.EncodeToString(raw), Stream: stream, Cmds: []string{r.cmd}})
 		}
 	}
 }
